@@ -222,9 +222,9 @@ PROPS['C06'] = dict(
     lean_targets=['AnonModel.Props.C06Eval', 'AnonModel.Props.C06Legacy', 'AnonModel.Props.C06W3C'],
     required_theorems=['C06_eval_iff_sat', 'C06_leaf_spec', 'C06_unsupported_false', 'C06_legacy_attr_binding', 'C06_legacy_pred_binding', 'C06_legacy_no_self_attest',
                        'C06_legacy_tags_mixed_rejected', 'C06_raw_unbound_refuted', 'C06_w3c_attr', 'C06_w3c_pred', 'C06_w3c_values_authenticated'],
-    families=[dict(name='c06u'), dict(name='c06')], default_dir='safety', fam_dir={'c06': 'safety', 'c06u': 'exact'},
-    spec_is_model=['c06u'],
-    fam_theorem={'c06u': 'C06_eval_iff_sat / C06_leaf_spec (eval = declarative Boolean semantics)', 'c06': 'C06_legacy_attr_binding / C06_legacy_pred_binding / C06_w3c_attr / C06_w3c_pred'},
+    families=[dict(name='c06u'), dict(name='c06')], default_dir='safety', fam_dir={'c06': 'safety', 'c06.eval': 'exact'},
+    spec_is_model=['c06.eval'],
+    fam_theorem={'c06.eval': 'C06_eval_iff_sat / C06_leaf_spec (eval = declarative Boolean semantics)', 'c06': 'C06_legacy_attr_binding / C06_legacy_pred_binding / C06_w3c_attr / C06_w3c_pred'},
     rule="unit level (hook on process_operator): random restriction ASTs to depth 3 over 28 tag names (8 metadata tags, attr::..::value/marker for present / unrevealed / absent attributes and malformed variants, junk and $-prefixed tags) x 14 values hitting and missing every metadata field, all operators incl. the unsupported ones, against 5 credential filters (legacy / URI issuers, wrong-length DIDs) x value maps — compared exactly. System level: one fixed valid presentation per round (one- and two-credential, both formats) while only the restriction of one referent (single, unrevealed, group, predicate) varies over 12 templates true and 12 templates false of the serving credential; restriction of the other credential; duplicate referent (F10); restricted self-attested; value restriction met by a forged raw (F15, known finding)." + SYS_RULE,
     trusted_base=TRUSTED_COMMON + IDEALCL,
     assumptions=["interpretation fixed in DESIGN §6 C06: a value/marker leaf on an attribute the holder left unrevealed is satisfied; a marker on a revealed attribute compares the value (code behaviour, part of C06_leaf_spec)", "F15 (legacy value restrictions are evaluated on the unauthenticated raw) is a known finding: C06_raw_unbound_refuted"],
